@@ -46,6 +46,21 @@ CHECKS = {
    note="Trusted: CBMC+MiniSat, Verilator 5.006 (same generator options as the CMake build), vl2c/tbx rule lists, tick counter for VerilatedContext time. "
         "Assumes the image's stack-pointer word is inside memory (only relevant when the first instruction is SVC). Remainder of the run: C03 per clock, C06 for the shim.",
    technique="CBMC contract harness over extracted testbench loop + Verilator-generated C, all power-on states; replay through hextb.cpp's own run() on the native model"),
+ "C05": dict(cat="proof", design="DESIGN.md §4 C05",
+   text="Contracts on numNibbles/instrLen (function + loop contracts) and an inductive invariant of one layout pass of CodeGen::resolveLabels over a directive list of "
+        "symbolic length, discharged as generated base/step/exit obligations on the mechanically extracted loop body and Directive class family (ghost reference k / target t; "
+        "ghost adjacent pair for the offset chain); the exit lemma of a changeless pass gives 'address after the instruction + operand == label address' / 'operand == word address "
+        "or rejected'; per-directive Hoare triple for emitProgramBin's loop body (bytes decode by the ISA prefix rule to the resolved operand, running offset == layout offset); "
+        "header-word lemma. Termination is a BOUNDED stand-in (progress measure on all programs of <=4/6 directives) and is not counted as proved.",
+   note="Trusted: CBMC+MiniSat, extractor rules (dirx/asmx), WF() of directive objects (constructors unverified; instantiated at visited/dereferenced elements), std::map lookup = "
+        "declaring directive, outer loop/constructor/emitBin matched textually, composition of the lemmas on paper. Native sweep of the real assembler is the counterexample search + replay.",
+   technique="CBMC code contracts + generated base/step/exit invariant obligations on mechanically extracted C; native replay on real hexasm"),
+ "C17": dict(cat="proof", design="DESIGN.md §4 C17",
+   text="Per-directive obligation on the extracted loop bodies of emitProgramBin and emitProgramText run on the same object and state: the listed offset is where the encoding "
+        "starts, the listed size is the number of bytes written, the listed operand is the operand decoded from the bytes by the ISA prefix rule; offsets chained in source order "
+        "(pass.chain invariant) so only alignment/padding zeros lie between items; operands are final at the fixed point (C05 exit lemma).",
+   note="Trusted: as C05; text rendering by boost::format/std::to_string is dropped (the tuple of printed values is compared). xcmp -S / hexasm --instrs entry points are text-checked to print through emitProgramText.",
+   technique="CBMC contract harness on mechanically extracted C (shared with C05); native replay compares real listings with real images"),
 }
 NA = {
  "C01": "compiler correctness over all X programs: needs an X semantics and a simulation proof over 3200 lines of STL C++ that CBMC cannot parse; no per-function contract expresses it (DESIGN §5)",
@@ -56,11 +71,9 @@ NA = {
  "C14": "process-level exit status / files on disk of four main()s, hinging on C++ exception propagation and overload resolution; outside CBMC's reach (DESIGN §5)",
 }
 PENDING = {
- "C05": "claimed by design (DESIGN §4); check not built yet in this round",
  "C06": "claimed by design (DESIGN §4); check not built yet in this round",
  "C07": "claimed by design (DESIGN §4); check not built yet in this round",
  "C15": "claimed by design (DESIGN §4); check not built yet in this round",
- "C17": "claimed by design (DESIGN §4); check not built yet in this round",
 }
 def main():
     checks = []
